@@ -97,6 +97,7 @@ class Machine:
         self.eof = fl[F.EOF_SUPPORT]
         self.max_steps = max_steps
         self.overflow_log = []      # (source state, action) of out-of-space redirects in the current call
+        self.cond_break_log = []    # breaks taken inside a conditional action in the current call
         self._cur_source = None
         self.needs_end_check = self.zero_len or any(
             any(a.may_return_early() for a in t.actions) for s in self._reachable() for t in s.transitions)
@@ -291,11 +292,17 @@ class Machine:
         if isinstance(a, nmfu.ConditionalAction):
             for cond in a.conditions:
                 if self.cond_true(cond, cfg, inval, in_end, in_start):
-                    for sub in a.sub_actions[cond]:
-                        self.run_action(sub, cfg, inval, events, in_start, in_end)
+                    self._cond_depth = getattr(self, "_cond_depth", 0) + 1
+                    try:
+                        for sub in a.sub_actions[cond]:
+                            self.run_action(sub, cfg, inval, events, in_start, in_end)
+                    finally:
+                        self._cond_depth -= 1
                     break
             return
         if isinstance(a, nmfu.BreakAction):
+            if getattr(self, "_cond_depth", 0) > 0:
+                self.cond_break_log.append(a)       # a break taken under a data condition (inside an action-only if)
             events.append(("break",))
             for sub in a.replacement_actions():
                 self.run_action(sub, cfg, inval, events, in_start, in_end)
@@ -374,6 +381,7 @@ class Machine:
         seen = set()
         steps = 0
         self.overflow_log = []
+        self.cond_break_log = []
         while True:
             steps += 1
             if steps > self.max_steps:
